@@ -120,7 +120,7 @@ theorem simplify_sublist (dist : Point64 → Point64 → Point64 → D) (maxD : 
   simp only
   split
   · exact List.Sublist.refl _
-  · generalize (simplifyLoop dist path epsSq closed (path.size - 1) (path.size + 1) _) = s
+  · generalize (simplifyFinal dist maxD path epsSq closed) = s
     rw [Array.toList_filterMap, Array.toList_range]
     have := filterMap_range_sublist path.toList (fun i => s.flags[i]!) (fun i => path[i]!)
       (fun i h => by
